@@ -96,9 +96,9 @@ def compare_forest(r, c, ftrees):
 def run(ctx):
     quick = ctx.quick()
     rng = ctx.rng
-    opts = [{"tables": 1, "consume_input": False}, {"tables": 1, "consume_input": False, "lexdis": True},
-            {"tables": 0, "consume_input": False}]
-    jobs = glrcases.gen_jobs(rng, quick, opts[:2] if quick else opts, nrand=60 if quick else 1500,
+    opts = [{"tables": 1, "consume_input": False, "chart": 1}, {"tables": 1, "consume_input": False, "lexdis": True},
+            {"tables": 0, "consume_input": False, "chart": 1}]
+    jobs = glrcases.gen_jobs(rng, quick, opts[:2] if quick else opts, nrand=60 if quick else 700,
                              maxlen=4 if quick else 6)
     # plus dedicated prefix grammars with overlapping terminals of different lengths
     for name, text, alpha in [("pre_a_aa", "S: 'a' | 'aa';", "a"),
@@ -131,8 +131,31 @@ def run(ctx):
                 if c.get("solutions", 0) <= 4 * CAP:
                     mcases.append((7, [c["nodes"], 4 * CAP]))
                     meta.append(("trees", r, c))
+    # the verified completeness validator (theorem C17_forest_complete, consume_input off): every
+    # derivation of every sentence prefix is in the forest -- no enumeration needed
+    vcases, vmeta = [], []
+    for r in results:
+        if r["gerr"] or not r["plain"] or r["opts"].get("lexdis") is True:
+            continue
+        start = r["grammar"][0][1][0][1]
+        for c in r["cases"]:
+            if c["status"] == "forest" and c.get("nodes") is not None and not c.get("cyclic") \
+                    and len(c["nodes"]) <= 1200:
+                w = c["input"]
+                ch = c.get("chart")
+                if ch is not None:
+                    vcases.append((15, [r["grammar"], c["nodes"], [ord(x) for x in w], c["rx"], wsl, start, 0, 0, ch]))
+                    vmeta.append((id(r), w))
     t1 = time.time()
     outs = common.model_run(mcases)
+    vouts = common.model_run(vcases)
+    verdict = {k: tuple(o) for k, o in zip(vmeta, vouts)}
+    st["validator_runs"] = len(vcases)
+    st["complete_by_theorem"] = sum(1 for o in vouts if tuple(o) == (1, 1, 1))
+    st["validator_incomplete"] = sum(1 for o in vouts if o[0] == 1 and o[1] == 1 and o[2] != 1)
+    if any(o[1] != 1 for o in vouts):
+        ctx.violation("the chart certificate computed by the harness is not closed (chart_closed fails)",
+                      {"count": sum(1 for o in vouts if o[1] != 1)}, no_input=True, key="chart")
     tt["model"] = round(time.time() - t1, 1)
     nx, xok, xlog = common.coq_crosscheck("C17", mcases, outs, rng, sample=25 if quick else 80)
     if not xok:
@@ -198,6 +221,16 @@ def run(ctx):
                 continue
             miss, dup, extra, want = cmpd
             st["compared"] += 1
+            v = verdict.get((id(r), w))
+            if v is not None and v[1] == 1:
+                if v == (1, 1, 1) and miss:
+                    ctx.violation("forest_complete holds (theorem C17_forest_complete) but the reference finds a "
+                                  "prefix derivation that is absent (codec/extraction error)", rep,
+                                  no_input=True, key="thm-vs-ref")
+                if v[0] == 1 and v[2] != 1 and not miss:
+                    ctx.violation("forest_complete fails on a valid forest although the reference finds every "
+                                  "prefix derivation in it (validator or reference wrong)", rep,
+                                  no_input=True, key="ref-vs-thm")
             if len(set(len(refparse.leaves_of_shape(t)) for t in want)) > 1:
                 st["multi_prefix_cases"] += 1
                 distinct.add((r["gtext"], w))
